@@ -25,6 +25,18 @@ fn close(x: f64, n: f64, d: f64, tol: f64) -> bool {
     (x - want).abs() <= tol * want.abs().max(1.0)
 }
 
+/// the observed numbers against the specification's exact amount for the OBSERVED unit (pred.alts: one entry per unit of
+/// the designated list); false when the unit is not in the list
+fn close_alt(unit: &str, lo: f64, hi: f64, p: &Value) -> bool {
+    p["alts"].as_array().map_or(false, |alts| {
+        alts.iter().any(|a| {
+            a["unit"].as_str() == Some(unit)
+                && close(lo, a["lo"]["n"].as_f64().unwrap_or(0.0), a["lo"]["d"].as_f64().unwrap_or(1.0), 1e-9)
+                && close(hi, a["hi"]["n"].as_f64().unwrap_or(0.0), a["hi"]["d"].as_f64().unwrap_or(1.0), 1e-9)
+        })
+    })
+}
+
 fn ends(q: &Quantity<QValue>) -> Option<(f64, f64)> {
     match q.value() {
         QValue::Number(n) => Some((n.value(), n.value())),
@@ -53,7 +65,8 @@ fn model_case(r: &Value, conv: &Converter) -> Value {
             let close_ok = ends(&q).is_some()
                 && close(lo, p["lo"]["n"].as_f64().unwrap_or(0.0), p["lo"]["d"].as_f64().unwrap_or(1.0), 1e-9)
                 && close(hi, p["hi"]["n"].as_f64().unwrap_or(0.0), p["hi"]["d"].as_f64().unwrap_or(1.0), 1e-9);
-            json!({"st": "ok", "unit": unit, "close": close_ok || ends(&q).is_none(), "is_text": ends(&q).is_none(), "unchanged": q == q0})
+            json!({"st": "ok", "unit": unit, "close": close_ok || ends(&q).is_none(), "close_alt": close_alt(&unit, lo, hi, p) || ends(&q).is_none(),
+                   "is_text": ends(&q).is_none(), "unchanged": q == q0})
         }
     };
     // the same through Converter::convert
@@ -76,9 +89,14 @@ fn model_case(r: &Value, conv: &Converter) -> Value {
                     ConvertValue::Number(n) => (n, n),
                     ConvertValue::Range(rg) => (*rg.start(), *rg.end()),
                 };
-                let ok = close(lo, p["lo"]["n"].as_f64().unwrap_or(0.0), p["lo"]["d"].as_f64().unwrap_or(1.0), 1e-9)
-                    && close(hi, p["hi"]["n"].as_f64().unwrap_or(0.0), p["hi"]["d"].as_f64().unwrap_or(1.0), 1e-9)
-                    && u.symbol() == p["unit"].as_str().unwrap_or("");
+                // to a system the choice among the designated units is free: the amount must be the specified one for the chosen unit
+                let ok = if p.get("alts").is_some() {
+                    close_alt(u.symbol(), lo, hi, p)
+                } else {
+                    close(lo, p["lo"]["n"].as_f64().unwrap_or(0.0), p["lo"]["d"].as_f64().unwrap_or(1.0), 1e-9)
+                        && close(hi, p["hi"]["n"].as_f64().unwrap_or(0.0), p["hi"]["d"].as_f64().unwrap_or(1.0), 1e-9)
+                        && u.symbol() == p["unit"].as_str().unwrap_or("")
+                };
                 json!(if ok { "ok" } else { "differs" })
             }
         };
@@ -95,7 +113,7 @@ fn model_case(r: &Value, conv: &Converter) -> Value {
 fn bundled_cases(std: &Value) -> Vec<Value> {
     let conv = Converter::bundled();
     let units: Vec<_> = conv.all_units().collect();
-    let grid = [0.0, 0.25, 1.0, 3.5, 250.0, 1e4, -2.0];
+    let grid = [0.0, 0.25, 1.0, 3.5, 250.0, 1e4, -2.0, 6.5e9 + 0.5, 3e12 + 0.25, 0.07];
     let std_ratio = |sym: &str| -> Option<(f64, f64)> {
         let key = match sym {
             "fl oz" => "floz",
@@ -154,6 +172,12 @@ fn bundled_cases(std: &Value) -> Vec<Value> {
                     if err > 1e-6 {
                         std_ok = false;
                     }
+                    // the same through the quantity (ScaledQuantity::convert may store the result as a fraction plus its error)
+                    let mut q = Quantity::new(QValue::Number(v.into()), Some(a.symbol().to_string()));
+                    match guarded(|| q.convert(b.symbol(), &conv).map(|_| ends(&q))) {
+                        Ok(Ok(Some((x, _)))) if (x - want).abs() / want.abs().max(1.0) <= 1e-6 => {}
+                        _ => std_ok = false,
+                    }
                 }
             }
             out.push(json!({"kind_rec": "bundled", "from": crate::project::s(a.symbol()), "to": crate::project::s(b.symbol()),
@@ -173,6 +197,8 @@ fn fit_cases(std: &Value) -> Vec<Value> {
     };
     let mut grid: Vec<f64> = (1..=400).map(|k| k as f64 * 0.05).collect();
     grid.extend([0.875, 6.35, 0.3, 33.0, 48.0, 100.0, 128.0, 1000.0, 2500.0]);
+    // around and beyond u32 / the widest whole part a fraction can carry, and small amounts no fraction approximates
+    grid.extend([4294967295.5, 4294967296.25, 7e10 + 0.5, 2e12 + 1.0 / 3.0, 65535.3, 0.07, 0.013, 0.0007]);
     let mut out = Vec::new();
     for u in conv.all_units() {
         if u.difference != 0.0 {
